@@ -82,11 +82,11 @@ Qed.
 Theorem builder_stack_discipline t : sx_ok t = true -> pushes1 (ops_of t).
 Proof.
   induction t using sx_ind2; cbn [sx_ok ops_of]; intros Hok; try (eexists; intros stk; reflexivity).
-  - (* XLit *) destruct cs as [|c cs]; [discriminate|]. apply chain_pushes1; auto; [discriminate|].
+  - (* XLit *) destruct cs as [|c cs]; [eexists; intros stk; reflexivity|]. apply chain_pushes1; auto; [discriminate|].
     apply Forall_forall. intros p Hp. apply in_map_iff in Hp as (x & <- & _). apply pushes_char_1, char_ops_char.
-  - (* XILit *) destruct cs as [|c cs]; [discriminate|]. apply chain_pushes1; auto; [discriminate|].
+  - (* XILit *) destruct cs as [|c cs]; [eexists; intros stk; reflexivity|]. apply chain_pushes1; auto; [discriminate|].
     apply Forall_forall. intros p Hp. apply in_map_iff in Hp as (x & <- & _). apply dchar_ops_1.
-  - (* XClass *) destruct items as [|i items]; [discriminate|].
+  - (* XClass *) destruct items as [|i items]; [destruct a; [discriminate|eexists; intros stk; reflexivity]|].
     assert (Hc : pushes1 (chain_ops BAlternate (map (item_ops b) (i :: items)))).
     { apply chain_pushes1; auto; [discriminate|]. apply Forall_forall. intros p Hp. apply in_map_iff in Hp as (x & <- & _). apply item_ops_1. }
     destruct a; [|rewrite app_nil_r; exact Hc].
